@@ -36,11 +36,12 @@ type counters struct {
 }
 
 type inst struct {
-	c    *cfg
-	q    *heapq.Queue[int]
-	desc bool
-	ref  []int // multiset, kept sorted ascending
-	cnt  *counters
+	c             *cfg
+	q             *heapq.Queue[int]
+	desc          bool
+	ref           []int // multiset, kept sorted ascending
+	cnt           *counters
+	emptied, used bool
 }
 
 func asc(a, b int) int { return a - b }
@@ -107,6 +108,9 @@ func (s *inst) Key() string {
 	}
 	for _, v := range s.data() {
 		fmt.Fprintf(&sb, ",%d", v)
+	}
+	if s.emptied {
+		sb.WriteString(" E")
 	}
 	return sb.String()
 }
@@ -233,6 +237,11 @@ func (s *inst) Apply(o op, check bool) *mc.Failure {
 	default:
 		return mc.Failf(0, "unknown op %v", o)
 	}
+	if len(s.ref) > 0 {
+		s.used = true
+	} else if s.used {
+		s.emptied = true
+	}
 	if !check {
 		return nil
 	}
@@ -349,12 +358,18 @@ func roots(vals, maxLen int) ([][]int, []int) {
 // ---- heapq.Sort: all short sequences, both directions (E4) ----
 
 type sortTrace struct {
-	In   []int `json:"in"`
-	Desc bool  `json:"desc"`
+	In    []int `json:"in"`
+	Desc  bool  `json:"desc"`
+	Spare int   `json:"spare_capacity"` // the argument is a prefix of a larger array
 }
 
 func checkSort(t sortTrace) *mc.Failure {
-	vs := append([]int(nil), t.In...)
+	full := make([]int, len(t.In)+t.Spare)
+	copy(full, t.In)
+	for i := len(t.In); i < len(full); i++ {
+		full[i] = -1000 - i
+	}
+	vs := full[:len(t.In)]
 	c := asc
 	if t.Desc {
 		c = dsc
@@ -368,7 +383,12 @@ func checkSort(t sortTrace) *mc.Failure {
 		}
 	}
 	if !eqInts(vs, want) {
-		return mc.Failf(0, "Sort(desc=%v, %v) = %v, want %v", t.Desc, t.In, vs, want)
+		return mc.Failf(0, "Sort(desc=%v, len %d, spare capacity %d, %.80s) leaves %.100s, want %.100s", t.Desc, len(t.In), t.Spare, fmt.Sprint(t.In), fmt.Sprint(vs), fmt.Sprint(want))
+	}
+	for i := len(t.In); i < len(full); i++ {
+		if full[i] != -1000-i {
+			return mc.Failf(0, "Sort(len %d, spare capacity %d) wrote beyond the slice at offset %d", len(t.In), t.Spare, i)
+		}
 	}
 	return nil
 }
@@ -413,22 +433,61 @@ func main() {
 				vals, ml := mc.Pick(r, 3, 4), mc.Pick(r, 7, 9)
 				seqs := allSeqs(vals, ml)
 				var nontriv int64
+				var extra int64
 				mc.ParallelFor(len(seqs), r.Workers, func(i int) {
 					for _, d := range []bool{false, true} {
-						t := sortTrace{In: seqs[i], Desc: d}
-						if f := checkSort(t); f != nil {
-							r.Violation(mc.Case{Harness: "heap-sort", Trace: mc.J(t), Msg: f.Msg, Step: 0})
+						for _, spare := range []int{0, 3, 4*len(seqs[i]) + 5} {
+							t := sortTrace{In: seqs[i], Desc: d, Spare: spare}
+							if f := mc.GuardT("heap-sort", t, func() *mc.Failure { return checkSort(t) }); f != nil {
+								r.Violation(mc.Case{Harness: "heap-sort", Trace: mc.J(t), Msg: f.Msg, Step: 0})
+							}
 						}
 					}
 					if !sort.IntsAreSorted(seqs[i]) {
 						atomic.AddInt64(&nontriv, 1)
 					}
 				})
-				n := int64(len(seqs)) * 2
+				// Longer inputs in several shapes, as prefixes of larger arrays: an
+				// implementation may treat storage differently once the heap or its
+				// capacity passes a threshold.
+				shapes := map[string]func(i, n int) int{
+					"ascending":   func(i, n int) int { return i },
+					"descending":  func(i, n int) int { return n - i },
+					"constant":    func(i, n int) int { return 7 },
+					"alternating": func(i, n int) int { return (i%2)*50 + i/2 },
+					"sawtooth":    func(i, n int) int { return i % 5 },
+					"organ-pipe":  func(i, n int) int { return min(i, n-i) },
+					"last-small": func(i, n int) int {
+						if i == n-1 {
+							return -1
+						}
+						return i
+					},
+				}
+				for _, n := range []int{10, 15, 16, 17, 18, 31, 32, 33, 48, 63, 64, 65, 70, 100, 129, 260} {
+					for name, sh := range shapes {
+						in := make([]int, n)
+						for i := range in {
+							in[i] = sh(i, n)
+						}
+						for _, spare := range []int{0, 1, 64 - min(n, 64), 64, 3 * n, 4*n + 1, 300} {
+							for _, d := range []bool{false, true} {
+								t := sortTrace{In: in, Desc: d, Spare: spare}
+								if f := mc.GuardT("heap-sort", t, func() *mc.Failure { return checkSort(t) }); f != nil {
+									f.Msg = name + ": " + f.Msg
+									r.Violation(mc.Case{Harness: "heap-sort", Trace: mc.J(t), Msg: f.Msg, Step: 0})
+								}
+								extra++
+							}
+						}
+					}
+				}
+				r.Count("longer_inputs_with_spare_capacity", extra)
+				n := int64(len(seqs))*6 + extra
 				r.AddEval(int64(len(seqs)), n, n, nontriv)
 				r.Bound("values", vals)
 				r.Bound("max_len", ml)
-				r.Rule("heapq.Sort on every sequence over the value alphabet up to the length bound, both directions; non-trivial = input not already sorted")
+				r.Rule("heapq.Sort on every sequence over the value alphabet up to the length bound, both directions, as a slice with spare capacity 0, 3 and 4*len+5 (nothing beyond len may be written); plus 16 lengths 10..260 x 7 shapes x 7 spare capacities; non-trivial = input not already sorted")
 				r.Sample(sortTrace{In: []int{2, 0, 1, 0}, Desc: true})
 			},
 			Replay: func(c mc.Case) *mc.Failure {
